@@ -237,7 +237,7 @@ unsafe fn drop_cycle<T>(cycle: HashMap<Link<T>, usize>) {
         // deallocate. This allows us to bust the cycle detection by clearing
         // all links.
         let rcbox = ptr.as_ptr();
-        let cycle_strong_refs = {
+        {
             let mut links = (*rcbox).links().borrow_mut();
             links
                 .extract_if(|link, _| {
@@ -247,14 +247,17 @@ unsafe fn drop_cycle<T>(cycle: HashMap<Link<T>, usize>) {
                         false
                     }
                 })
-                .map(|(link, count)| {
-                    if let Kind::Forward = link.kind() {
-                        count
-                    } else {
-                        0
-                    }
-                })
-                .sum::<usize>()
+                .for_each(drop);
+        }
+        // The strong references to this node that are held by the cycle are
+        // the ones the reachability trace counted for it (`refcount`); this is
+        // the quantity `Rc::orphaned_cycle` compared the strong count against.
+        // It is not the number of links busted above, which counts references
+        // held *by* this node. Loopback keys only log bookkeeping.
+        let cycle_strong_refs = if let Kind::Forward = ptr.kind() {
+            refcount
+        } else {
+            0
         };
 
         // To be in a cycle, at least one `value` field in an `RcBox` in the
